@@ -82,6 +82,13 @@ func init() {
 					e.Emit(engine.Case{Kind: "c16cli:" + bin, Leg: "cli/" + bin, A: t})
 				}
 			}
+			// YAML scalars that hold a raw tab (legal inside quoted scalars) next to their two-space look-alikes
+			for _, s := range []string{"a\tb", "a  b", "\tb", "a\t", "a \t b", "a\t\tb"} {
+				want := ref.JSON(map[string]interface{}{"k": s})
+				e.Emit(engine.Case{Kind: "c16t", Leg: "yaml-raw-tab", A: "k: \"" + s + "\"\n", B: want})
+				e.Emit(engine.Case{Kind: "c16t", Leg: "yaml-raw-tab", A: "k: '" + s + "'\n", B: want})
+				e.Emit(engine.Case{Kind: "c16t", Leg: "yaml-raw-tab", A: "- \"" + s + "\"\n- 1\n", B: ref.JSON([]interface{}{s, 1.0})})
+			}
 			for _, t := range c16NumberTexts() {
 				for _, emb := range []string{"%s", "[%s]", `{"a": %s}`, `{"a": [%s, %s]}`} {
 					e.Emit(engine.Case{Kind: "c16n", Leg: "json-number-texts", A: strings.ReplaceAll(emb, "%s", t)})
@@ -151,6 +158,23 @@ func runC16(c *engine.Case) engine.Result {
 	if c.Kind == "c16n" {
 		return runC16N(c)
 	}
+	if c.Kind == "c16t" {
+		res := engine.Result{Nontrivial: true, Traces: 1, Transitions: 1, Bucket: "doc/yaml-raw-tab"}
+		p := impl.Guard(func() {
+			n, err := jd.ReadYamlString(c.A)
+			if err != nil {
+				res.Violation = fmt.Sprintf("ReadYamlString fails on %q: %v", c.A, err)
+				return
+			}
+			if got, err := impl.ToV(n); err != nil || !ref.Equal(got, ref.MustParse(c.B), ref.List) {
+				res.Violation = fmt.Sprintf("the YAML text %q reads as %s, it says %s", c.A, n.Json(), c.B)
+			}
+		})
+		if p != "" {
+			res.Violation = p
+		}
+		return res
+	}
 	v := ref.MustParse(c.A)
 	res := engine.Result{Nontrivial: true}
 	var fail string
@@ -190,6 +214,26 @@ func runC16(c *engine.Case) engine.Result {
 			yv, err := impl.ToV(ny)
 			if err != nil || !ref.Equal(yv, v, ref.List) {
 				fail = fmt.Sprintf("document read from YAML (%s form %q) renders as %s, not the original", w.name, w.text, ny.Json())
+				return
+			}
+		}
+		// the file-reading entry points read what the string-reading ones read
+		// (for the documents on which the JSON and YAML readers can differ at all: characters that JSON writes
+		// raw and YAML treats specially, numbers, words that YAML resolves)
+		if raw := ref.JSONRaw(v); len(c.A) < 4000 && (raw != c.A || (strings.ContainsAny(c.A, "0123456789") && strings.ContainsAny(c.A, "eE.+-x_")) || strings.ContainsAny(c.A, "~<") || len(c.A) <= 4) {
+			dir := cli.TempDir()
+			defer os.RemoveAll(dir)
+			jf := cli.WriteFile(dir, "doc.json", ref.JSONRaw(v))
+			yf := cli.WriteFile(dir, "doc.yaml", ref.YAMLBlock(v))
+			fj, err1 := jd.ReadJsonFile(jf)
+			fy, err2 := jd.ReadYamlFile(yf)
+			res.Transitions += 2
+			if err1 != nil || err2 != nil {
+				fail = fmt.Sprintf("ReadJsonFile / ReadYamlFile fail on files that ReadJsonString / ReadYamlString read: %v %v", err1, err2)
+				return
+			}
+			if !fj.Equals(nj) || fj.Json() != nj.Json() || !fy.Equals(nj) {
+				fail = fmt.Sprintf("ReadJsonFile gives %s and ReadYamlFile %s, the string readers %s", fj.Json(), fy.Json(), nj.Json())
 				return
 			}
 		}
